@@ -277,9 +277,8 @@ impl<'store> ResultItem<'store, Annotation> {
         resource: impl Request<TextResource>,
     ) -> Option<ResultTextSelectionSet<'store>> {
         let mut textselections: Vec<ResultTextSelection<'store>> = Vec::new();
-        let handle = resource
-            .to_handle(self.rootstore())
-            .expect("resource must have handle");
+        //(a request that does not resolve to a resource selects nothing)
+        let handle = resource.to_handle(self.rootstore())?;
         for tsel in self.textselections() {
             if tsel.resource().handle() == handle {
                 textselections.push(tsel);
